@@ -31,7 +31,7 @@ def real_ns():
 
 def mk(kind, rep, vals, mask, shape):
     """-> (real array, shim array)"""
-    dt = float if kind == 'f' else int
+    dt = float if kind == 'f' else (int if kind == 'i' else rnp.uint64)
     d = rnp.array(vals, dtype=dt).reshape(shape)
     cells = [z3.RealVal(str(Fraction(v))) for v in vals]
     sd = symnp.ndarray._new(cells, tuple(shape), kind)
@@ -48,9 +48,9 @@ def dump_real(x):
         return ('masked',)
     if isinstance(x, rnp.ma.MaskedArray):
         m = rnp.ma.getmaskarray(x)
-        return ('ma', x.shape, x.dtype.kind.replace('u', 'i'), [float(v) for v in rnp.asarray(x.data).ravel()], [bool(b) for b in m.ravel()])
+        return ('ma', x.shape, x.dtype.kind, [float(v) for v in rnp.asarray(x.data).ravel()], [bool(b) for b in m.ravel()])
     if isinstance(x, rnp.ndarray):
-        return ('nd', x.shape, x.dtype.kind.replace('u', 'i'), [float(v) for v in x.ravel()], None)
+        return ('nd', x.shape, x.dtype.kind, [float(v) for v in x.ravel()], None)
     if x is rnp.ma.masked:
         return ('masked',)
     if isinstance(x, (bool, rnp.bool_)):
@@ -169,6 +169,9 @@ CASES = {
     'ma.min_axis0': lambda np, a, b: np.ma.min(np.ma.vstack([a, b]), axis=0), 'ma.max_axis0': lambda np, a, b: np.ma.max(np.ma.stack([a, b]), axis=0),
     'maskany_axis0': lambda np, a, b: np.ma.getmaskarray(np.ma.stack([a, b])).any(axis=0), 'nd.min_axis0': lambda np, a, b: np.stack([np.ma.getdata(a), np.ma.getdata(b)]).min(axis=0),
     'masked_values': lambda np, a, b: np.ma.masked_values(a, 1, copy=False, shrink=False), 'masked_values_near': lambda np, a, b: np.ma.masked_values(np.ma.asarray(a) * 1.000001, 1.0),
+    'scalar_sub': lambda np, a, b: np.ma.getdata(a).min() - np.ma.getdata(a).max(), 'arr_minus_min': lambda np, a, b: np.ma.getdata(a) - np.ma.getdata(a).min(),
+    'scalar_minus_py': lambda np, a, b: np.ma.getdata(a).max() - 1, 'scalar_times_neg': lambda np, a, b: np.ma.getdata(a).max() * -1, 'scalar_mixed': lambda np, a, b: np.ma.getdata(a).max() - np.ma.getdata(b).max(),
+    'arr_minus_scalar_b': lambda np, a, b: np.ma.getdata(a) - np.ma.getdata(b).max(), 'normalize': lambda np, a, b: (np.ma.getdata(a) - np.ma.getdata(a).min()) * (0 - 1) / (np.ma.getdata(a).min() - np.ma.getdata(a).max() - 1) + 0,
     'can_cast': lambda np, a, b: bool(np.can_cast(a.dtype, b.dtype, 'safe')),
     'count_nonzero': lambda np, a, b: np.count_nonzero(np.ma.getdata(a)), 'power3': lambda np, a, b: np.power(np.ma.getdata(a), 3),
 }
@@ -323,6 +326,9 @@ def alias_main(trials, rng, only):
     return 1 if bad else 0
 
 
+KINDS = os.environ.get('SHIMDIFF_KINDS', 'ffi')
+
+
 def main():
     if len(sys.argv) > 1 and sys.argv[1] == 'alias':
         return alias_main(int(sys.argv[2]) if len(sys.argv) > 2 else 40, random.Random(int(sys.argv[3]) if len(sys.argv) > 3 else 1),
@@ -339,9 +345,9 @@ def main():
             size *= s
         arrs = []
         for _ in range(2):
-            kind = rng.choice('ffi')
+            kind = rng.choice(KINDS)
             rep = rng.choice(['ma', 'ma', 'nomask', 'nd'])
-            vals = [rng.choice([-2, -1, 0, 1, 2, 3]) if kind == 'i' else rng.choice([-2.0, -1.0, -0.5, 0.0, 0.25, 1.0, 1.5, 3.0]) for _ in range(size)]
+            vals = [rng.choice([-2, -1, 0, 1, 2, 3]) if kind == 'i' else (rng.choice([0, 1, 2, 3, 5]) if kind == 'u' else rng.choice([-2.0, -1.0, -0.5, 0.0, 0.25, 1.0, 1.5, 3.0])) for _ in range(size)]
             mask = [rng.random() < 0.3 for _ in range(size)]
             arrs.append((kind, rep, vals, mask))
         for name, fn in CASES.items():
